@@ -320,9 +320,19 @@ class NodeWorld:
             sk._sim_sleep(app._verif_cfg.get("slow_s", 3))
         if behaviour == "very-slow":
             sk._sim_sleep(7)          # longer than the 5 s a queued request waits for a free slot
-        ans = app.generate_answer(message, result_code=2001)
-        self._fill_answer(ans, message)
-        if behaviour in ("answer", "slow", "very-slow"):
+        if behaviour == "answer-experimental":
+            # RFC 6733 7.6: an answer may carry Experimental-Result instead of Result-Code (usual on 3GPP interfaces)
+            from diameter.message.avp import Avp
+            from diameter.message import constants as C_
+            ans = app.generate_answer(message)
+            self._fill_answer(ans, message)
+            er = Avp.new(C_.AVP_EXPERIMENTAL_RESULT)
+            er.value = [Avp.new(C_.AVP_VENDOR_ID, value=10415), Avp.new(C_.AVP_EXPERIMENTAL_RESULT_CODE, value=5001)]
+            ans.append_avp(er)
+        else:
+            ans = app.generate_answer(message, result_code=2001)
+            self._fill_answer(ans, message)
+        if behaviour in ("answer", "slow", "very-slow", "answer-experimental"):
             if isinstance(app, self.mods["application"].ThreadingApplication):
                 return ans
             app.send_answer(ans)
